@@ -38,7 +38,7 @@ ASSUMPTIONS = [
     'SQLite returns exactly the FrameLUT rows matching the WHERE clause (the clause is pinned textually in T5)',
     'the temporary channel table behaves like the four-statement fragment `Tiling.tempOp` (DROP [IF EXISTS], CREATE [IF NOT EXISTS], INSERT [OR '
     'REPLACE] under one UNIQUE column, rollback of a failed executemany); compared with the rows of the real table after every step of every '
-    'history; a table lock is modelled as one flag (an abandoned frame query: DROP TABLE then fails), set when a read raises while copying rows, '
+    'history; a table lock is modelled as one flag (an abandoned frame query: DROP TABLE then fails), set when the body of a read raises while its frame query has rows, '
     'the iterator does not close its cursor (regenerated, T4t) and the caller keeps the exception',
     'histories: whether the options of a call are refused by _get_pixels_by_seg_frame (inside the with-block) is an input of the model, computed '
     'from the mask on the oracle side (combine_segments: overlap / non-binary fractions in the region; C02 models that method)',
@@ -856,9 +856,7 @@ def _seg_history(ctx, cfg, reader, E, segs, R, C, base_hist, reqs=None, pending=
             if lm:
                 data, refuses = [], False       # no table; overlap / binary-fraction refusals do not exist for label maps
             msteps.append({'data': data, 'nch': 1 if lm else (max(k for k, _ in data) + 1) if combine else len(sub), 'request': [list(req)],
-                           'refuses': refuses, 'labelmap': lm,
-                           # overlap / non-binary fractions are detected while the rows of the frame query are being copied
-                           'mid_iteration': bool(refuses and combine)})
+                           'refuses': refuses, 'labelmap': lm})
             raw = st == 'ok' and step in ('stacked', 'subset', 'dtype')
             mimpl.append({'state': _temp_table_rows(reader), 'outcome': 'ok' if st == 'ok' else val.split(':')[0],
                           'result': [np.asarray(val)[..., k].astype(np.int64).tolist() for k in range(len(sub))] if raw else None,
@@ -1363,7 +1361,7 @@ def run(ctx):
             _settle(ctx, reqs, pending)
             reqs, pending = [], []
     # random slide images
-    for idx in range(_n(ctx, 100, 1200, 5000)):
+    for idx in range(_n(ctx, 100, 900, 5000)):
         cfg = _slide_config(ctx, idx)
         r = ctx.rng('slidereq', idx)
         # every read decodes each touched frame through pydicom (~1 ms per frame): fewer requests for images with many frames
@@ -1376,7 +1374,7 @@ def run(ctx):
     for idx in range(_n(ctx, 8, 100, 300)):
         _check_duplicates(ctx, idx, reqs, pending)
     # tiled segmentations
-    for idx in range(_n(ctx, 150, 2400, 9000)):
+    for idx in range(_n(ctx, 150, 1500, 9000)):
         cfg = _seg_config(ctx, idx)
         _check_seg(ctx, cfg, reqs, pending)
         if len(reqs) > 200:
